@@ -414,6 +414,13 @@ var (
 // agreeMode (thorough tier): every solver runs to completion and definite answers must agree.
 var agreeMode bool
 
+func forgetResult(text string) {
+	h := sha256.Sum256([]byte(text))
+	cacheMu.Lock()
+	delete(resultCache, hex.EncodeToString(h[:8]))
+	cacheMu.Unlock()
+}
+
 func Solve(name, text string, timeoutS int, needCvc5 bool) SolverResult {
 	h := sha256.Sum256([]byte(text))
 	key := hex.EncodeToString(h[:8])
